@@ -23,14 +23,19 @@ def cfg_text(m, lmax, taumax, bug="none", invs=None):
             + "".join(f"INVARIANT {i}\n" for i in invs))
 
 
-def call(x, tau, noncorr, m, scale):
+def make_msm(x, m):
     from molgri.molecules.transitions import MSM
     arr = np.array([np.nan if v < 0 else float(v) for v in x], dtype=float)
+    return MSM(arr, total_num_cells=m)
+
+
+def call(x, tau, noncorr, m, scale, msm=None):
+    """one call; with `msm` given the SAME object is re-used (results must not depend on earlier calls on it)"""
     rec = dict(x=[int(v) for v in x], tau=int(float(tau)), noncorr=bool(noncorr), m=m, scale=scale,
                tau_form=type(tau).__name__)
     try:
         with quiet():
-            T = MSM(arr, total_num_cells=m).get_one_tau_transition_matrix(tau, noncorrelated_windows=noncorr)
+            T = (msm if msm is not None else make_msm(x, m)).get_one_tau_transition_matrix(tau, noncorrelated_windows=noncorr)
         D = np.asarray(T.toarray(), dtype=float)
         S = D * scale
         R = np.round(S)
@@ -62,10 +67,14 @@ def run(ctx: Ctx):
     recs = []
     alphabet = list(range(M)) + [-1]
     for L in range(lmax + 1):
-        for x in itertools.product(alphabet, repeat=L):
+        for xi, x in enumerate(itertools.product(alphabet, repeat=L)):
+            # one MSM object per trajectory, all lags and both modes requested from it, in alternating order:
+            # the result for (tau, mode) must not depend on what was asked before
+            msm = make_msm(x, M + 1)
             for tau in range(1, taumax + 1):
-                for noncorr in (False, True):
-                    recs.append(call(x, tau, noncorr, M + 1, SCALE))
+                for noncorr in ((False, True) if (xi + tau) % 2 else (True, False)):
+                    recs.append(call(x, tau, noncorr, M + 1, SCALE, msm=msm))
+    recs.sort(key=lambda r: (len(r["x"]), r["x"], r["tau"], r["noncorr"]))
     if not thorough and len(recs) != n_init_model:
         raise MachineryError(f"driver enumerated {len(recs)} cases, the model has {n_init_model} initial states")
     # long random trajectories with NaN runs; tau as int / float / str (the workflow passes a string)
@@ -83,7 +92,11 @@ def run(ctx: Ctx):
         x = x[:L]
         tau = rng.randint(1, 12)
         form = rng.choice([int, float, str])
-        recs.append(call(x, form(tau), rng.random() < 0.5, m + rng.randint(0, 2), 10 ** 6))
+        mm = m + rng.randint(0, 2)
+        first = rng.random() < 0.5
+        shared = make_msm(x, mm)
+        recs.append(call(x, form(tau), first, mm, 10 ** 6, msm=shared))
+        recs.append(call(x, form(tau), not first, mm, 10 ** 6, msm=shared))
     # get_all_tau_transition_matrices must agree with the single-tau call
     from molgri.molecules.transitions import MSM
     for _ in range(20 if thorough else 5):
